@@ -155,6 +155,7 @@ def run(ctx):
     impl = h.run(cases)
     model = coqbuild.run_model(mlines)
     ctx.log(f"implementation answered {len(impl)}, model answered {len(model)}")
+    ctx.vm_crosscheck(mlines, model)
     spec_fail, disagreements = [], []
     hist = {}
     distinct = set()
